@@ -426,6 +426,24 @@ type runner struct {
 	// crash harness: called right before an operation is issued / right after it was observed
 	pre  func(opTerm string)
 	post func(entry string)
+	// probe mode (in-memory only): also record the real heap array, Index fields and insertion numbers
+	probe bool
+	pout  strings.Builder
+}
+
+func (rn *runner) probeTerm(tg *target) string {
+	heap, mp := tg.s.inmem.VerifProbe()
+	ids := make([]string, len(heap))
+	idx := make([]string, len(heap))
+	for i, e := range heap {
+		ids[i] = cq.Str(e.Id)
+		idx[i] = cq.Int(e.Index)
+	}
+	me := make([]string, len(mp))
+	for i, e := range mp {
+		me[i] = fmt.Sprintf("(%s, %s, %d%%nat)", cq.Str(e.Id), cq.Int(e.Index), e.InsertionOrder)
+	}
+	return "([" + strings.Join(ids, ";") + "], [" + strings.Join(idx, ";") + "], [" + strings.Join(me, ";") + "])"
 }
 
 func (rn *runner) before(opTerm string) {
@@ -493,6 +511,12 @@ func (rn *runner) emit(tg *target, op, res string) {
 	}
 	if tg.out.Len() > 0 {
 		tg.out.WriteString(";\n  ")
+	}
+	if rn.probe {
+		if rn.pout.Len() > 0 {
+			rn.pout.WriteString(";\n  ")
+		}
+		rn.pout.WriteString("(" + op + ", " + res + ", " + rn.probeTerm(tg) + ")")
 	}
 	entry := "(" + op + ", " + rn.observe(tg, res) + ")"
 	tg.out.WriteString(entry)
@@ -846,6 +870,7 @@ func repoMain(args []string) {
 	quoteKeys := fs.Bool("quotekeys", false, "adversarial map keys with quotes and brackets")
 	scribble := fs.Bool("scribble", false, "overwrite every map reachable from arguments and results after each call (C19)")
 	dbfile := fs.String("dbfile", "", "sqlite file dsn prefix (thorough: file-backed)")
+	probe := fs.Bool("probe", false, "in-memory only: print the real heap array / Index / insertion numbers after every operation (cases : list phist)")
 	_ = fs.Parse(args)
 
 	r := rand.New(rand.NewSource(*seed))
@@ -854,7 +879,11 @@ func repoMain(args []string) {
 	var samples []string
 	var b strings.Builder
 	b.WriteString("From GK Require Import PropCheck.\nOpen Scope string_scope.\nOpen Scope list_scope.\nOpen Scope Z_scope.\n")
-	if *mode == "c14" {
+	if *probe {
+		b.Reset()
+		b.WriteString("From GK Require Import HeapCheck.\nOpen Scope string_scope.\nOpen Scope list_scope.\nOpen Scope Z_scope.\n")
+		b.WriteString("Definition cases : list phist := [\n")
+	} else if *mode == "c14" {
 		b.WriteString("Definition cases : list snapcase := [\n")
 	} else {
 		b.WriteString("Definition cases : list hist := [\n")
@@ -876,7 +905,7 @@ func repoMain(args []string) {
 			}
 		}
 		tgA := newTarget(s)
-		rn := &runner{ts: []*target{tgA}, g: g, scrib: *scribble, clock: clock}
+		rn := &runner{ts: []*target{tgA}, g: g, scrib: *scribble, clock: clock, probe: *probe}
 		w := weightsFor(*mode, *impl)
 		rich := *mode == "c11" || r.Intn(3) == 0
 		var text string
@@ -921,6 +950,9 @@ func repoMain(args []string) {
 				rn.drain()
 			}
 			text = " [" + tgA.out.String() + "]"
+			if *probe {
+				text = " [" + rn.pout.String() + "]"
+			}
 		}
 		for _, tg := range rn.ts {
 			tg.s.closer()
